@@ -268,6 +268,12 @@ _RESERVED_WORDS = frozenset(
         "for",
         "empty",
         "blank",
+        # Loop arguments, when they follow an array literal in a `for` tag.
+        "limit",
+        "offset",
+        "reversed",
+        "cols",
+        "continue",
     ]
 )
 
